@@ -12,6 +12,18 @@ CLAIMS = {
   text="Operator table proved for ALL int64 operands (VM arithmetic/comparison/logic = reference semantics; wrap64 is two's complement), expression/statement simulation lemmas for the compiler model; three checked ties (model bytecode == nano_virt --emit-nvm byte for byte; model VM run == real run; native model == nanoc binary) and an independent reference oracle (Lang/Ref.v, transcription of SPECIFICATION 4-8) against which both real engines are run on generated programs, the exhaustive boundary operator table and the witness of every recorded finding.",
   note="Ref.v is a reviewed transcription of the specification (trusted). CoreS fragment + string literals; CoreX only through the C01 corpus. Native: C compiler/libc modelled (arguments right-to-left). Open findings: argument order, self-referential shadowing let, same-scope redeclaration, trigraphs in strings (all native).",
   technique="Coq proof (operator table, compiler/VM simulation) + bytecode-equality tie + reference-oracle differential", design="DESIGN.md 4, 5/C02, App. A.1"),
+ 'C01': dict(
+  text="Corollary layer of the C02 development (value printing and exit status coincide; the native model with left-to-right argument evaluation IS the reference semantics, proved by mutual induction on fuel) plus a model-independent oracle: both REAL backends are run on the witness of every recorded finding, on generated CoreS programs in prefix/infix/mixed spelling and on the repository's own example and test programs (CoreX: structs, enums, unions, tuples, arrays, strings, imports); stdout bytes and exit status must be identical.",
+  note="Theorems cover CoreS; CoreX and imports by correspondence only. Programs that use the environment/FFI or print floats are outside the property and skipped. Open findings: native argument order, three native C-compile failures, five repo programs (STRUCT_GET on the VM, a failing string assertion, C-implemented module functions).",
+  technique="Coq corollaries of the engine simulation + direct differential of the two real backends", design="DESIGN.md 5/C01"),
+ 'C10': dict(
+  text="deserialize(serialize m) = stamp m field-wise and serialisation idempotence for all well-formed modules, the API keeps the string pool duplicate-free; exit-status model of the runners (nano_virt --run, nano_vm, native wrapper) with agreement proved from two AST-derived facts regenerated per run; 1500+ modules built through the real API byte-compared with the model, compiled programs run under all runners.",
+  note="Wrapper embedding and output equality are end-to-end only; daemon runner only in the model.",
+  technique="Coq proof + generated parameters + extracted-model correspondence", design="DESIGN.md 5/C10"),
+ 'C12': dict(
+  text="CRC-32 burst detection (<=32 bits) for every polynomial with bit 31 set, table form = bitwise form, refusal of bursts / bit flips / 4-byte changes / every truncation / bad magic, version, section count, refusal of every appended tail, and all-or-nothing loading are Coq theorems over CRC parameters and wire constants regenerated from nvm_format.c; the extracted loader is compared with the real nvm_deserialize (ASan) on every single-bit flip and truncation of ~40 files, bursts in both bit numberings, steered tails.",
+  note="Fault model: header intact (the header is outside the checksum); MSB-first bursts straddling five bytes are swept, not proved. One open finding: lenient entry loops inside a section (needs a crafted, well-checksummed file).",
+  technique="Coq proof + generated parameters + extracted-model correspondence", design="DESIGN.md 5/C12"),
  'C17': dict(
   text="Under every schedule a session's final state and reply equal its run alone (interleaving theorem over footprints), the lazily initialised CRC table is race free under sequential consistency, every session-reachable writable global (nm/relocation inventory regenerated per run) is classified, and the client's view of the reply equals the standalone observation; live daemon with up to 16 (quick) / 64 (thorough) concurrent clients, TSan/ASan builds.",
   note="Sequential consistency only; footprint classes asserted by reading and tested; scheduler not modelled; VM run is an oracle shared by both sides; FFI sessions excluded.",
